@@ -5,5 +5,5 @@ CONSTANTS
   MaxSteps = 600
   Predict = FALSE
   MaxMut = 0
-  Sugars = {"go", "echo", "script", "full"}
+  Sugars = {"echo", "full"}
 INVARIANTS Export Terminates StoreOK Predicted WellTypedInv
